@@ -26,6 +26,20 @@ def cases(draw):
         for node in _case_nodes(m['tree']):
             if draw(st.integers(0, 7)) == 0:
                 node['falsy'] = True        # test objects that are false in a boolean context
+    if draw(st.integers(0, 5)) == 0:
+        # a module that switches its tests off: it defines test case classes, but its test_suite() returns an empty suite
+        src = spec['modules'][draw(st.integers(0, len(spec['modules']) - 1))]
+        off = {'name': 'e', 'style': 'empty_suite', 'tree': copy.deepcopy(src['tree'])}
+        k = [0]
+
+        def rename(node):
+            if node['t'] == 'c':
+                k[0] += 1
+                node['name'] = 'TE%d' % k[0]
+            for ch in node.get('ch') or ():
+                rename(ch)
+        rename(off['tree'])
+        spec['modules'].append(off)
     lnames = [L['name'] for L in spec['layers']]
     mnames = [m['name'] for m in spec['modules']]
     tnames = sorted({t['n'] for _, t in gen.iter_tests(spec)})
